@@ -140,6 +140,35 @@ def untyped_pair_cases(ctx):
     return cases
 
 
+def edge_scalars():
+    """plain scalars at the edges of their types (every one is plain data from_native must convert)"""
+    import datetime
+    from .gen_schema import DS, DTS, U4
+    return [float("inf"), float("-inf"), 1.7976931348623157e308, -1.7976931348623157e308, 5e-324, 1e-320, 0.1 + 0.2,
+            2 ** 63, -2 ** 63 - 1, 2 ** 70, 10 ** 400, -10 ** 400, "", "\x00", "\ud800", "e\u0301", "{}", "%s", "\\", b"", b"\x00\xff",
+            U4[0], DTS[0], DS[0], datetime.datetime(2024, 2, 29, 12, 30, tzinfo=datetime.timezone.utc),
+            datetime.datetime.min, datetime.datetime.max, datetime.date.min, datetime.date.max, True, False, None, 0, -1]
+
+
+def untyped_edge_cases(ctx):
+    """directed: every edge scalar alone and nested at every position that has no declared type (bare list / dict / any,
+    relaxed dicts, the open part of element lists, lists of any) — these reach from_native through the substitutor"""
+    from d42 import schema
+    cases = []
+    for a in edge_scalars():
+        for mk in (lambda a: (schema.list, [1.5, a]), lambda a: (schema.dict, {"x": a}), lambda a: (schema.any, a),
+                   lambda a: (schema.any, [a, {"k": a}]), lambda a: (schema.dict({"k": schema.int, ...: ...}), {"k": 5, "x": a}),
+                   lambda a: (schema.list([schema.str, ...]), ["s", a]), lambda a: (schema.list([..., schema.str]), [a, "s"]),
+                   lambda a: (schema.list(schema.any), [a]), lambda a: (schema.dict({"m": schema.dict}), {"m": {"x": [a]}}),
+                   lambda a: (schema.any(schema.list, schema.dict), [[a]]), lambda a: (schema.list(schema.list), [[a]])):
+            try:
+                s, v = mk(a)
+            except Exception:  # noqa: BLE001
+                continue
+            cases.append(SubCase(s, v, v, "untyped-edge"))
+    return cases
+
+
 def list_window_cases(ctx):
     """directed: element lists WITHOUT `...` that also carry a length window with room above or below their element
     count (declared so, or produced by substituting into a typed list with a window — a two-step sequence), against
